@@ -63,6 +63,10 @@ def shapes():
         # dict subclasses a host may bind: lookups by the non-mutating builtins must not provoke __missing__ / reorder
         'ddict': lambda: collections.defaultdict(list, {'a': D(1), 'b': [D(2)]}),
         'odict': lambda: collections.OrderedDict([('b', D(1)), ('a', D(2))]),
+        # host numbers of the three host types: a builtin may convert what it computes with, never what the host holds
+        'floats': lambda: [1.5, 2.25, 3.0],
+        'mixed-num': lambda: [1, 2.5, D(3), True, D('0.1')],
+        'fdict': lambda: {'a': 0.5, 'b': 2, 'c': [1.5]},
         'long-desc': lambda: [D(100 - i) for i in range(100)],
         'long-strs': lambda: ['s%03d' % (200 - i) for i in range(150)],
     }
